@@ -18,6 +18,7 @@ func init() {
 	register(&Rule{ID: "C11.R2", Prop: "C11", Floor: 5, Doc: "checkpoint, header and block-id checks guard every success exit of the fetch helpers", Run: c11r2})
 	register(&Rule{ID: "C11.R3", Prop: "C11", Floor: 3, Doc: "relay handlers act only after the work and attach tests", Run: c11r3})
 	register(&Rule{ID: "C11.R4", Prop: "C11", Floor: 2, Doc: "RPC dispatchers recover from handler panics", Run: c11r4})
+	register(&Rule{ID: "C11.R8", Prop: "C11", Floor: 2, Doc: "a peer's heavier fork that turns out invalid part-way leaves the node on its own chain: the failed reorg is rolled back to the tip saved before it (same check as C01.R3)", Run: c01r3})
 	register(&Rule{ID: "C11.R7", Prop: "C11", Floor: 1, Doc: "a rejected or finished inbound RPC gives its per-peer and per-subnet slots back, so a peer loop never stops reading (same checks as C18.R1/R2)", Run: func(c *Ctx) { c18r1(c); c18r2(c) }})
 	register(&Rule{ID: "C11.R6", Prop: "C11", Floor: 3, Doc: "first/last-element accesses of (peer-supplied) lists only after a test of the list's length", Run: c11r6})
 	register(&Rule{ID: "C11.R5", Prop: "C11", Floor: 8, Doc: "provable misbehaviour reaches ban, and ban reports to the peer store", Run: c11r5})
